@@ -13,6 +13,12 @@
 (*         basis, pivot columns) equal the brute-force definitions, for    *)
 (*         every right-hand side, and the case is emitted with its         *)
 (*         expected values for REPLAY into pennylane.math.binary_*.        *)
+(*         The systems the consumers pose are read off the same            *)
+(*         elimination and checked against their brute-force definitions: *)
+(*         the symmetry group of the Hamiltonian with terms (x|z) = rows   *)
+(*         of A (SymAgree; replayed into qchem.symmetry_generators) and    *)
+(*         the RowCol row selections of a regular A (RowSelAgree; replayed *)
+(*         into transforms.intermediate_reps.rowcol).                      *)
 (***************************************************************************)
 EXTENDS GF2, Json
 CONSTANTS Shapes,          \* set of <<m, n>>: every binary matrix of these shapes is enumerated
